@@ -108,13 +108,18 @@ impl TcpEyesEngine {
         let addrs: Vec<SocketAddr> = c
             .cands
             .iter()
-            .map(|k| SocketAddr::from(([127, 0, 0, 1], [live_port, fx.dead_port, hang_port][*k as usize % 3])))
+            .map(|k| match *k as usize % 4 {
+                // an IPv6 candidate while the configured local IPv6 address cannot be assigned: the attempt
+                // fails while its socket is prepared - one failed candidate like any other
+                3 => SocketAddr::from((std::net::Ipv6Addr::LOCALHOST, live_port)),
+                i => SocketAddr::from(([127, 0, 0, 1], [live_port, fx.dead_port, hang_port][i])),
+            })
             .collect();
         let n = addrs.len();
         let timeout_ms = c.timeout.map(|t| t as u64 * 100);
         // what the statements imply for this configuration
         let model = EyeCase {
-            atts: c.cands.iter().map(|k| ([Out::Ok, Out::Err, Out::Never][*k as usize % 3], 0)).collect(),
+            atts: c.cands.iter().map(|k| ([Out::Ok, Out::Err, Out::Never, Out::Err][*k as usize % 4], 0)).collect(),
             delay: if n == 0 { timeout_ms } else { timeout_ms.map(|t| t / n as u64) },
             timeout: timeout_ms,
             conc: c.conc.map(|x| x as usize),
@@ -134,6 +139,7 @@ impl TcpEyesEngine {
                 cfg.happy_eyeballs_timeout = timeout_ms.map(Duration::from_millis);
                 cfg.happy_eyeballs_concurrency = c.conc.map(|x| x as usize);
                 cfg.connect_timeout = Some(Duration::from_secs(20));
+                cfg.local_address_ipv6 = Some("2001:db8::1".parse().unwrap());
                 let transport: TcpTransport<crate::engines::addrsort::ListResolver, TcpStream> =
                     TcpTransport::builder().with_config(cfg).with_resolver(crate::engines::addrsort::ListResolver(vec![])).build();
                 tokio::time::timeout(Duration::from_millis(500), transport.connect_to_addrs(addrs.clone())).await.ok().map(|r| match r {
@@ -161,6 +167,7 @@ impl TcpEyesEngine {
             cfg.happy_eyeballs_timeout = timeout_ms.map(Duration::from_millis);
             cfg.happy_eyeballs_concurrency = c.conc.map(|x| x as usize);
             cfg.connect_timeout = Some(Duration::from_secs(20));
+            cfg.local_address_ipv6 = Some("2001:db8::1".parse().unwrap());
             let transport: TcpTransport<crate::engines::addrsort::ListResolver, TcpStream> =
                 TcpTransport::builder().with_config(cfg).with_resolver(crate::engines::addrsort::ListResolver(vec![])).build();
             let t0 = Instant::now();
@@ -186,7 +193,7 @@ impl TcpEyesEngine {
                     // which live candidate: the reference's winner if it is live, else the first live one
                     match &want.res {
                         Res::Ok(i) => Res::Ok(*i),
-                        _ => Res::Ok(c.cands.iter().position(|k| k % 3 == 0).unwrap_or(0)),
+                        _ => Res::Ok(c.cands.iter().position(|k| k % 4 == 0).unwrap_or(0)),
                     }
                 } else {
                     Res::Ok(usize::MAX)
@@ -213,8 +220,11 @@ impl TcpEyesEngine {
             Res::NoProgress => "expected-no-progress",
             Res::Hang => "expected-hang",
         });
-        if c.cands.iter().any(|k| k % 3 == 2) {
+        if c.cands.iter().any(|k| k % 4 == 2) {
             rep.class("hanging-candidate");
+        }
+        if c.cands.iter().any(|k| k % 4 == 3) {
+            rep.class("candidate-failing-while-its-socket-is-prepared");
         }
         if far_too_late {
             rep.violate(format!("{p}/tcp-transport-completed-far-too-late"), desc.clone());
@@ -243,7 +253,7 @@ impl TcpEyesEngine {
 pub fn strategy() -> impl proptest::strategy::Strategy<Value = TcpEyesCase> {
     use proptest::prelude::*;
     (
-        proptest::collection::vec(prop_oneof![2 => Just(0u8), 2 => Just(1u8), 2 => Just(2u8)], 0..=4),
+        proptest::collection::vec(prop_oneof![2 => Just(0u8), 2 => Just(1u8), 2 => Just(2u8), 1 => Just(3u8)], 0..=4),
         prop_oneof![1 => Just(None), 4 => prop_oneof![Just(12u8), Just(16u8), Just(24u8)].prop_map(Some)],
         prop_oneof![Just(None), Just(Some(0u8)), Just(Some(1u8)), Just(Some(2u8)), Just(Some(3u8))],
     )
